@@ -94,6 +94,7 @@ pub fn gen(rng: &mut Rng, _tier: &str) -> String {
     let bases = random_kmer_bases(rng, k);
     let ini = match rng.below(4) {
         0 if k <= 32 => format!("u:{}", bases_to_raw(&bases) as u64),
+        0 => format!("u:{}", if rng.chance(1, 3) { rng.next() >> rng.below(40) } else { rng.next() }),
         1 => {
             let tbl = [["A", "a"], ["C", "c"], ["G", "g"], ["T", "t"]];
             let mut s = String::new();
